@@ -121,7 +121,7 @@ def native_check(c, n_cases, seed, size=4, time_budget_s=None):
 
 
 def run_natives(cs, n_cases, seed, jobs, size=4):
-    work = [(c.qualname, n_cases * c.native.get('weight', 1), seed, c.native.get('size', size))
+    work = [(c.qualname, max(1, int(n_cases * c.native.get('weight', 1))), seed, c.native.get('size', size))
             for c in cs if c.native]
     if not work:
         return []
@@ -209,7 +209,7 @@ def main(argv=None):
              if r['status'] in ('contract-out-of-date', 'unsupported')]
     stale = [c for c in stale if c is not None and c.native and not (c.native or {}).get('enumerate')]
     if stale:
-        work = [(c.qualname, 10 * n_cases * c.native.get('weight', 1), seed + 7919, c.native.get('size', 4),
+        work = [(c.qualname, max(1, int(10 * n_cases * c.native.get('weight', 1))), seed + 7919, c.native.get('size', 4),
                  SEARCH_BUDGET_S) for c in stale]
         ctxp = mp.get_context('fork')
         with ctxp.Pool(processes=max(1, min(a.jobs, len(work))), maxtasksperchild=1) as pool:
